@@ -81,6 +81,11 @@ func nearMisses(name string) []string {
 	add("x" + name)
 	add(strings.ToUpper(name))
 	add("")
+	for _, tw := range gen.ChecksumTwins() {
+		if tw.A == name {
+			add(tw.B)
+		}
+	}
 	for _, la := range gen.LookAlikes(name) {
 		if len(la) < 4000 { // (keeps the registration list small for the very long names of TestEveryLength)
 			add(la)
@@ -130,10 +135,14 @@ func lengths() []int {
 			set[m-1], set[m], set[m+1] = true, true, true
 		}
 	}
+	// 65216 = 32*2038 is the longest name the wire format can carry: enc(32) + inner(1+256+2+padded) + tag(16) <= 65535.
+	// (Longer names make the CLIENT panic inside cryptobyte's BytesOrPanic - a local argument, outside this property.)
+	// The top of the range is in both tiers: 16-bit sums of lengths wrap just below it.
+	for _, x := range []int{32768, 65024, 65025, 65056, 65215, 65216} {
+		set[x] = true
+	}
 	if rt.Thorough() {
-		// 65216 = 32*2038 is the longest name the wire format can carry: enc(32) + inner(1+256+2+padded) + tag(16) <= 65535.
-		// (Longer names make the CLIENT panic inside cryptobyte's BytesOrPanic - a local argument, outside this property.)
-		for _, x := range []int{20000, 32767, 32768, 40000, 65000, 65215, 65216} {
+		for _, x := range []int{20000, 32767, 40000, 65000, 65100, 65185} {
 			set[x] = true
 		}
 	}
@@ -146,7 +155,7 @@ func lengths() []int {
 }
 
 func TestEveryLength(t *testing.T) {
-	s := rt.S("every-length").SetRule("for EVERY name length 0..130 (thorough: 0..4096) and every multiple of 32 +-1 up to 4096 (thorough: selected up to 65216, the largest that fits the wire format): a name of that length (host-like / arbitrary non-zero bytes / interior NULs; never ending in 0x00) is requested; with exactly that name registered the issuer must serve it, with only near-misses registered it must refuse; wire length must be identical for all names with the same number of 32-byte blocks and differ between block counts. non-trivial = every length; distinct by construction")
+	s := rt.S("every-length").SetRule("for EVERY name length 0..130 (thorough: 0..4096) and every multiple of 32 +-1 up to 4096, and 32768, 65024..65216 (65216 is the largest name that fits the wire format; thorough: further lengths in between): a name of that length (host-like / arbitrary non-zero bytes / interior NULs; never ending in 0x00) is requested; with exactly that name registered the issuer must serve it, with only near-misses registered it must refuse; wire length must be identical for all names with the same number of 32-byte blocks and differ between block counts. non-trivial = every length; distinct by construction")
 	defer rt.Entropy([]byte(fmt.Sprintf("c20 every length %d", rt.BaseSeed)))()
 	w := world{rsaIdx: int(rt.BaseSeed % 8), chal: []byte("challenge"), nonce: bytes.Repeat([]byte{7}, 32)}
 	w.secret = bytes.Repeat([]byte{0x11}, 48)
